@@ -103,6 +103,14 @@ AllocSet(hp, d, raw) ==
       fresh == { [b |-> b, hp |-> [hp EXCEPT !.blk[b] = [st |-> "owned", dim |-> d, raw |-> raw, val |-> <<>>],
                                              !.hev = @ \cup {<<"new",b>>}]] : b \in fr }
   IN IF Policy = "code" /\ hits # {} THEN hits ELSE hits \cup fresh
+\* the same with the fresh block numbered as the ledgers number it (smallest free identity)
+AllocFew(hp, d) ==
+  LET hits == { [b |-> b, hp |-> [hp EXCEPT !.blk[b].st = "owned", !.blk[b].val = <<>>,
+                                            !.cache[d] = @ \ {b}, !.hev = @ \cup {<<"hit",b>>}]] : b \in hp.cache[d] }
+      fr == IF FreeIds(hp) = {} THEN {} ELSE {MinOf(FreeIds(hp))}
+      fresh == { [b |-> b, hp |-> [hp EXCEPT !.blk[b] = [st |-> "owned", dim |-> d, raw |-> FALSE, val |-> <<>>],
+                                             !.hev = @ \cup {<<"new",b>>}]] : b \in fr }
+  IN hits \cup fresh
 \* Dealloc of owned block b held by a vector of dimension class d
 DeallocSet(hp, b, d) ==
   LET cachedR == [hp EXCEPT !.blk[b].st = "cached", !.blk[b].dim = d, !.cache[d] = @ \cup {b}, !.hev = @ \cup {<<"cached",b>>}]
@@ -357,6 +365,18 @@ AssignExpr(t, w, op, a, b, arv, brv, k, fail) ==
                   ELSE fail = 0 /\ \E ch \in AllocSet(hp0, d, FALSE) :
                          Commit([vec EXCEPT ![t] = [live |-> TRUE, dim |-> d, loc |-> BlkLoc(ch.b), owns |-> TRUE, ext |-> FALSE]],
                                 [ch.hp EXCEPT !.blk[ch.b].val = E], ebuf, "ok", act)
+            \* or (any storage strategy) a non-elementwise expression reaches an EMPTY target through a temporary although nothing aliases:
+            \* the implementation compares storage pointers, and the pointer an emptied vector still carries may equal an operand's.
+            \* The temporary is made, the target gets storage of its own, the temporary is given back; if the first allocation
+            \* fails nothing has happened, if the second fails only the temporary was made and given back.
+            \* (block identities: a cached block of that dimension or the smallest free identity, which is how the drivers' ledgers number
+            \*  fresh blocks - the full choice of AllocSet twice over made trace validation a thousand times slower for nothing)
+            \/ /\ Policy = "any" /\ ~Elementwise(op) /\ w = "=" /\ rt.loc.k = "null"
+               /\ \E ch1 \in AllocFew(hp0, d) :
+                    IF fail = 1 THEN \E hp2 \in DeallocSet(ch1.hp, ch1.b, d) : Commit(vec, hp2, ebuf, "bad_alloc", act)
+                    ELSE fail = 0 /\ \E ch2 \in AllocFew(ch1.hp, d) : \E hp3 \in DeallocSet(ch2.hp, ch1.b, d) :
+                           Commit([vec EXCEPT ![t] = [live |-> TRUE, dim |-> d, loc |-> BlkLoc(ch2.b), owns |-> TRUE, ext |-> FALSE]],
+                                  [hp3 EXCEPT !.blk[ch2.b].val = E], ebuf, "ok", act)
 
 --------------------------------------------------------------------------
 ExprArgs == {x \in [op : OpsOn \cap AllExprOps, arv : BOOLEAN, brv : BOOLEAN] :
